@@ -11,7 +11,10 @@ package main
 
 import (
 	"fmt"
+	"io/ioutil"
 	"math/rand"
+	"net/http"
+	"net/http/httptest"
 	"os"
 	"sort"
 	"strings"
@@ -21,6 +24,8 @@ import (
 
 	"github.com/Comcast/rulio/core"
 	"github.com/Comcast/rulio/cron"
+	"github.com/Comcast/rulio/service"
+	"github.com/Comcast/rulio/sys"
 	"github.com/anishathalye/porcupine"
 
 	"verif/lib/cronner"
@@ -727,12 +732,75 @@ func expiringItems(r *rep.Report, e rep.Env) {
 	}
 }
 
+// renderedEvents: event requests to ONE location through the HTTP service, which renders each
+// request's work tree (the dispatched rules included) as JSON while the other requests do the
+// same.  Every answer must be the one a lone request gets; the race detector watches the rest.
+func renderedEvents(r *rep.Report, e rep.Env) {
+	for _, linear := range []bool{false, true} {
+		s, err := drv.NewSys(drv.SysOpts{Linear: linear, TTL: sys.Forever}, cronner.New(true))
+		if err != nil {
+			r.Violate("", "cannot build system: "+err.Error(), nil)
+			return
+		}
+		h, err := service.NewHTTPService(drv.Ctx(), &service.Service{System: s})
+		if err != nil {
+			r.Violate("", "cannot build service: "+err.Error(), nil)
+			return
+		}
+		srv := httptest.NewServer(h)
+		ctx := drv.Ctx()
+		s.AddRule(ctx, "R", "one", `{"when":{"pattern":{"e":"?x"}},"action":{"code":"'one:' + x"}}`)
+		s.AddRule(ctx, "R", "two", `{"when":{"pattern":{"e":"?x"}},"actions":[{"code":"'two:' + x"}],"expires":4102444800}`)
+		const clients, per = 6, 25
+		bad := make([]string, clients)
+		var wg sync.WaitGroup
+		gate := make(chan struct{})
+		for c := 0; c < clients; c++ {
+			wg.Add(1)
+			go func(c int) {
+				defer wg.Done()
+				cl := &http.Client{Timeout: 30 * time.Second}
+				<-gate
+				for i := 0; i < per; i++ {
+					v := fmt.Sprintf("c%d-%d", c, i)
+					body := fmt.Sprintf(`{"location":"R","event":{"e":%q}}`, v)
+					resp, err := cl.Post(srv.URL+"/api/loc/events/ingest", "application/json", strings.NewReader(body))
+					if err != nil {
+						bad[c] = "transport: " + err.Error()
+						return
+					}
+					b, _ := ioutil.ReadAll(resp.Body)
+					resp.Body.Close()
+					if resp.StatusCode != 200 || !strings.Contains(string(b), `"one:`+v+`"`) || !strings.Contains(string(b), `"two:`+v+`"`) {
+						bad[c] = fmt.Sprintf("event %s answered %d %s", v, resp.StatusCode, string(b))
+						if len(bad[c]) > 600 {
+							bad[c] = bad[c][:600]
+						}
+						return
+					}
+				}
+			}(c)
+		}
+		close(gate)
+		wg.Wait()
+		srv.Close()
+		for c := 0; c < clients; c++ {
+			r.Case(true, fmt.Sprint("rendered-events", linear, c))
+			r.Count("rendered_event_requests", per)
+			if bad[c] != "" {
+				r.Violate("", "an event request to a location that other clients send events to at the same time was not answered as a lone request is", rep.J{"linear": linear, "client": c, "answer": bad[c]})
+			}
+		}
+	}
+}
+
 func main() {
 	e := rep.GetEnv()
 	r := rep.New(e)
 	if e.Batch == 0 {
 		r.WritePartial()
 		expiringItems(r, e)
+		renderedEvents(r, e)
 	}
 	clearVsWrites(r, e)
 	searchVsAdds(r, e)
